@@ -6,7 +6,9 @@ from ..common import gen, oracle
 from ..common.core import Sub, Violation, lib_call
 
 ID = "C07"
-RULE = ("'small': Hypothesis-generated (continuum 2-5 annotators, prod(k_i+1) <= 6000; every dissimilarity class). 'boundary': constructed continua whose "
+RULE = ("'history': the same continuum and dissimilarity OBJECTS are re-evaluated after in-place edits (replace / add / remove a unit; stale caches); "
+        "'ties': equal-length units on an integer grid so that sums land exactly on the cut (decided exactly with rational arithmetic when every pair cost is "
+        "float32-exact); 'small': Hypothesis-generated (continuum 2-5 annotators, prod(k_i+1) <= 6000; every dissimilarity class). 'boundary': constructed continua whose "
         "candidate count T is chosen by Hypothesis: a dense block of mutually close units (a0 x b0 [x c0]; every combination passes the cut) plus 'far' units "
         "that only pair with the empty unit (one candidate each), so T = prod(k_i+1) - 1 + far is hit exactly; T is drawn from windows of +-12 around the "
         "buffer sizes 10000, 15000, 22500, 33750 and uniformly up to 36000. Oracle: vectorised float64 enumeration of all index tuples: returned tuples form a "
@@ -43,19 +45,30 @@ def check(case):
     else:
         cont = case["continuum"]
     spec = case["dissim"]
+    c = oracle.build_continuum(cont)
+    d = oracle.build_dissim(spec)
+    info = evaluate(c, d, cont, spec)
+    # history: the SAME continuum and dissimilarity objects, edited in place between evaluations
+    for edit in case.get("edits", []):
+        cont = oracle.apply_edit(c, cont, edit, gen.labels_for(spec))
+        info2 = evaluate(c, d, cont, spec, label="after-in-place-edit:")
+        info["classes"] = sorted(set(info["classes"]) | {"edited-in-place"})
+        info["nontrivial"] = info["nontrivial"] or info2["nontrivial"]
+    return info
+
+
+def evaluate(c, d, cont, spec, label=""):
     per = oracle.per_annotator(cont)
     lst = [per[a] for a in sorted(per)]
     n = len(lst)
-    c = oracle.build_continuum(cont)
-    d = oracle.build_dissim(spec)
     disorders, tuples = lib_call("valid_alignments", d.valid_alignments, c)
     disorders = np.asarray(disorders, dtype=np.float64)
     tuples = np.asarray(tuples)
     if tuples.ndim != 2 or tuples.shape[1] != n or len(disorders) != len(tuples):
-        raise Violation("shape", f"tuples {tuples.shape} disorders {disorders.shape} n={n}")
+        raise Violation(label + "shape", f"tuples {tuples.shape} disorders {disorders.shape} n={n}")
     shape = tuple(len(p) + 1 for p in lst)
     if len(tuples) and (tuples.min() < 0 or np.any(tuples.max(axis=0) >= np.array(shape))):
-        raise Violation("index-out-of-range", f"max {tuples.max(axis=0)} sizes {shape}")
+        raise Violation(label + "index-out-of-range", f"max {tuples.max(axis=0)} sizes {shape}")
     costs = oracle.all_tuple_costs(spec, lst)          # all-empty = +inf
     delta = float(spec["delta"])
     thr = n * delta
@@ -64,25 +77,44 @@ def check(case):
     np.add.at(count, idx, 1)
     empty_idx = tuple(s - 1 for s in shape)
     if count[empty_idx] > 0:
-        raise Violation("all-empty-candidate", f"all-empty tuple returned {count[empty_idx]} times (T={len(tuples)})")
+        raise Violation(label + "all-empty-candidate", f"all-empty tuple returned {count[empty_idx]} times (T={len(tuples)})")
     if count.max() > 1:
         w = np.argwhere(count > 1)[0]
-        raise Violation("duplicate-candidate", f"tuple {tuple(w)} returned {count[tuple(w)]} times (T={len(tuples)})")
+        raise Violation(label + "duplicate-candidate", f"tuple {tuple(w)} returned {count[tuple(w)]} times (T={len(tuples)})")
     must = costs <= thr * (1 - 1e-5)
     may = costs <= thr * (1 + 1e-5)
+    # ties at the cut: three-valued in general, but decided exactly when every pair cost of the tuple is exactly
+    # representable in float32 (then the library's arithmetic cannot differ from the rational value)
+    band = np.isfinite(costs) & (costs > thr * (1 - 1e-5)) & (costs <= thr * (1 + 1e-5))
+    exact_ties = 0
+    if band.any() and int(band.sum()) <= 400:
+        from fractions import Fraction as F
+        c2n = n * (n - 1) // 2
+        thr_exact = F(c2n) * F(spec["delta"]) * n
+        for w in np.argwhere(band):
+            w = tuple(int(x) for x in w)
+            slots = [None if w[a] == shape[a] - 1 else lst[a][w[a]] for a in range(n)]
+            tot = oracle.exact_tuple_sum(spec, slots)
+            if tot is None:
+                continue
+            exact_ties += 1
+            if tot <= thr_exact:
+                must[w] = True
+            else:
+                may[w] = False
     missing = must & (count == 0)
     if missing.any():
         w = tuple(np.argwhere(missing)[0])
-        raise Violation("candidate-missing", f"tuple {w} disorder {costs[w]} <= {thr} not returned (T={len(tuples)}, expected >= {int(must.sum())})")
+        raise Violation(label + "candidate-missing", f"tuple {w} disorder {costs[w]} <= {thr} not returned (T={len(tuples)}, expected >= {int(must.sum())})")
     extra = (count > 0) & ~may
     if extra.any():
         w = tuple(np.argwhere(extra)[0])
-        raise Violation("candidate-above-cut", f"tuple {w} disorder {costs[w]} > {thr} returned (T={len(tuples)})")
+        raise Violation(label + "candidate-above-cut", f"tuple {w} disorder {costs[w]} > {thr} returned (T={len(tuples)})")
     ref = costs[idx]
     bad = np.abs(disorders - ref) > oracle.REL_TOL * np.maximum(1.0, np.abs(ref))
     if bad.any():
         k = int(np.argmax(bad))
-        raise Violation("candidate-disorder-mismatch", f"tuple {tuple(tuples[k])}: carried {disorders[k]} reference {ref[k]}")
+        raise Violation(label + "candidate-disorder-mismatch", f"tuple {tuple(tuples[k])}: carried {disorders[k]} reference {ref[k]}")
     T = len(tuples)
     pruned = bool(np.isfinite(costs).sum() > int(may.sum()))
     real_counts = np.zeros(shape, dtype=np.int32)
@@ -92,6 +124,8 @@ def check(case):
         real_counts = real_counts + (np.arange(shape[ax]) < shape[ax] - 1).astype(np.int32).reshape(sh)
     multi_kept = bool(((count > 0) & (real_counts >= 2)).any())
     classes = [f"n={n}", f"kind={spec['kind']}"]
+    if exact_ties:
+        classes.append("exact-tie-at-cut")
     near = [b for b in BOUNDARIES if abs((T + 1) - b) <= 12]
     if near:
         classes.append(f"T+1-within-12-of-{near[0]}")
@@ -139,10 +173,52 @@ def boundary_cases(draw, uniform=False):
     return {"n": n, "block": block, "far": far, "dissim": spec}
 
 
+@st.composite
+def tie_cases(draw):
+    """equal-length units on a small integer grid: pair costs are small exact rationals, so that sums land EXACTLY on the cut"""
+    n = draw(st.sampled_from([2, 2, 3]))
+    L = float(draw(st.sampled_from([1, 2, 4])))
+    names = ["a", "b", "c"][:n]
+    units = []
+    for a in names:
+        for k in draw(st.lists(st.integers(0, 8), min_size=0 if units else 1, max_size=4, unique=True)):
+            units.append([a, k * L / 2 if draw(st.booleans()) else float(k) * L, 0.0, draw(st.sampled_from(["A", "B"]))])
+            units[-1][2] = units[-1][1] + L
+    spec = draw(st.sampled_from([
+        {"kind": "pos", "delta": 1.0}, {"kind": "pos", "delta": 0.5},
+        {"kind": "combined", "alpha": 1.0, "beta": 1.0, "delta": 1.0, "pos": None, "cat": None},
+        {"kind": "combined", "alpha": 1.0, "beta": 3.0, "delta": 1.0, "pos": None, "cat": None},
+        {"kind": "combined", "alpha": 2.0, "beta": 1.0, "delta": 2.0, "pos": None, "cat": None},
+        {"kind": "combined", "alpha": 1.0, "beta": 2.0, "delta": 0.5, "pos": None, "cat": None},
+        {"kind": "combined", "alpha": 1.0, "beta": 1.0, "delta": 1.0, "pos": None,
+         "cat": {"kind": "precomputed", "cats": ["A", "B"], "matrix": [[0.0, 0.5], [0.5, 0.0]], "delta": 1.0}},
+    ]))
+    return {"continuum": {"annotators": names, "units": units, "shape": "ties"}, "dissim": spec}
+
+
+EDIT = st.one_of(
+    st.tuples(st.just("replace"), st.integers(0, 50), gen.dyadic(0, 60), gen.dyadic(0.25, 12), st.integers(0, 5)),
+    st.tuples(st.just("replace"), st.integers(0, 50), gen.dyadic(0, 60), gen.dyadic(0.25, 12), st.integers(0, 5)),
+    st.tuples(st.just("add"), st.integers(0, 4), gen.dyadic(0, 60), gen.dyadic(0.25, 12), st.integers(0, 5)),
+    st.tuples(st.just("remove"), st.integers(0, 50)),
+).map(list)
+
+
+@st.composite
+def history_cases(draw):
+    cs = draw(gen.continuum_and_spec(min_ann=2, max_ann=4, budget=1500, max_per=8, unlabelled_ratio=0.1))
+    cs["edits"] = draw(st.lists(EDIT, min_size=1, max_size=4))
+    return cs
+
+
 def subchecks(tier):
     return [
         Sub(name="small", check=check, strategy=small_cases(),
             examples={"quick": 150, "thorough": 2000}, shards={"quick": 8, "thorough": 16}),
+        Sub(name="history", check=check, strategy=history_cases(),
+            examples={"quick": 100, "thorough": 1500}, shards={"quick": 4, "thorough": 16}),
+        Sub(name="ties", check=check, strategy=tie_cases(),
+            examples={"quick": 150, "thorough": 2000}, shards={"quick": 4, "thorough": 16}),
         Sub(name="boundary", check=check, strategy=boundary_cases(),
             examples={"quick": 30, "thorough": 200}, shards={"quick": 8, "thorough": 16}),
         Sub(name="large-uniform", check=check, strategy=boundary_cases(uniform=True),
